@@ -2,7 +2,9 @@
 # regression sweep: every kept seeded change must still be detected by its property's quick check (scratch copies only)
 cd "$(dirname "$0")/.."
 fail=0
+shard=${1:-0}; shards=${2:-1}; i=0      # optional: `eval_all_seeded.sh K N` runs every N-th entry starting at K
 for d in seeded/*/; do
+  i=$((i+1)); [ $(( (i - 1) % shards )) -eq "$shard" ] || continue
   out=$(python3-vt tools/eval_seeded.py "$d" 2>&1 | python3 -c "
 import json,sys
 r=json.load(sys.stdin); c=r['checks'][r['property']]
